@@ -128,7 +128,7 @@ def run(ctx):
     rng = ctx.sub_rng("rw")
     g = zgen.G(ctx.sub_rng("gen"), max_depth=3, illtyped=0.03)
     progs = [g.program() for _ in range(700 if quick else 8000)]
-    progs += ["1 () () 2", "[(()) 1 () (2, 3)]", "() 1 () () 2 () 3 ()", "(() ()) 1", "1 (() 2 ()) () 3", '1 "x%dy" "%s%s"', '"a\\x41b" length', '"tab\\there"', '7 "%x %o %b %d"', '"" ""', '"%%"', '1 "a%( 2 %)b"', '"%( 1 2 add %)"', '(1, 2) "<%( dup 1 add %)|%( 7 %)>"', '"%( "in%( 3 %)ner" %)"']
+    progs += ["1 () () 2", "[(()) 1 () (2, 3)]", "() 1 () () 2 () 3 ()", "(() ()) 1", "1 (() 2 ()) () 3", '1 "x%dy" "%s%s"', '"a\\x41b" length', '"tab\\there"', '7 "%x %o %b %d"', '"" ""', '"%%"', '1 "a%( 2 %)b"', '"%( 1 2 add %)"', '(1, 2) "<%( dup 1 add %)|%( 7 %)>"', '"%( "in%( 3 %)ner" %)"', '(1, 2) dup "-%s-%( "<%( 1 %)>" %)"', '7 "%x|%( "a%( 2 %)b" %)|%d"', '1 "%s%( ("(") %)"']
     evaluations = 0
     nontrivial = set()
     kinds = {}
